@@ -512,6 +512,18 @@ impl ThreadPool {
     /// Real rayon: whether the calling worker of THIS pool has jobs in its local queue.  The stand-in keeps one
     /// queue per pool: `Some(true)` while any job handed to the pool has not been picked up yet (which, for the
     /// calling worker's own forks, is the situation real rayon reports) - `None` outside the pool.
+    pub fn yield_local(&self) -> Option<Yield> {
+        if verif::controlled() && self.same_pool(&cur_ctx()) {
+            Some(Yield::Idle)
+        } else {
+            None
+        }
+    }
+
+    pub fn yield_now(&self) -> Option<Yield> {
+        self.yield_local()
+    }
+
     pub fn current_thread_has_pending_tasks(&self) -> Option<bool> {
         if !verif::controlled() {
             return None;
@@ -639,6 +651,26 @@ pub fn current_num_threads() -> usize {
 
 pub fn current_thread_has_pending_tasks() -> Option<bool> {
     cur_ctx_opt().map(|c| c.pending() > 0)
+}
+
+/// Result of `yield_now` / `yield_local`.
+#[derive(Clone, Copy, Debug, PartialEq, Eq)]
+pub enum Yield {
+    Executed,
+    Idle,
+}
+
+/// `rayon::yield_local` / `rayon::yield_now`: the controlled runtime has no per-worker queues - a job that has not
+/// begun is a task waiting for a free worker - so a yield never finds work of its own here: it answers `Idle`, which
+/// real rayon answers too whenever the other workers have already taken everything.  What a crate under test does
+/// with jobs it runs nested inside a yield is therefore NOT explored by the controlled runtime; the witnesses on
+/// real rayon (realrayon/) run the real function.
+pub fn yield_local() -> Option<Yield> {
+    cur_ctx_opt().map(|_| Yield::Idle)
+}
+
+pub fn yield_now() -> Option<Yield> {
+    cur_ctx_opt().map(|_| Yield::Idle)
 }
 
 pub fn current_thread_index() -> Option<usize> {
